@@ -181,6 +181,12 @@ func (c *Chain) Close() {
 	os.RemoveAll(c.Dir)
 }
 
+// EventSwitch is the node's event switch (the application hooks listen on it).
+func (c *Chain) EventSwitch() types.EventSwitch { return c.evsw }
+
+// NewPool is the no-op transaction pool the nodes are built with.
+func NewPool() types.TxPool { return pool{} }
+
 // Addr of validator i (address order).
 func (c *Chain) Addr(i int) []byte { return c.Keys[i].PubKey().Address() }
 
